@@ -205,6 +205,13 @@ def gen_case(rng, tier, kind=None):
             rng.shuffle(y)
             case["y"] = y
             case["yform"] = rng.choice(["array", "list"])
+    if kind in ("kmeans", "gmm_ml", "gmm_map", "gmm_kminit", "whitening") and not case.get("nan_mask") \
+            and rng.random() < 0.08:
+        # blocks without rows (concatenation of per-file arrays, one file empty)
+        ch = list(case["chunks"])
+        for _ in range(rng.randint(1, 2)):
+            ch.insert(rng.randint(0, len(ch)), 0)
+        case["chunks"] = ch
     # valid-but-unusual input forms: Fortran order, a strided view of a larger buffer,
     # single precision, and (for labelled kinds) other integer label containers
     r = rng.random()
@@ -573,7 +580,8 @@ def run_case(case, replay=None):
     nblocks = len(case["chunks"])
     rec.probe("multi_row_block", nblocks > 1)
     rec.probe("single_row_block", 1 in case["chunks"] and nblocks > 1)
-    rec.probe("uneven_blocks", nblocks > 1 and max(case["chunks"]) >= 5 * min(case["chunks"]))
+    rec.probe("zero_row_block", 0 in case["chunks"])
+    rec.probe("uneven_blocks", nblocks > 1 and max(case["chunks"]) >= 5 * max(1, min(case["chunks"])))
     rec.probe("feature_chunked", bool(case.get("fchunks")))
     rec.probe("unknown_chunk_sizes", bool(case.get("nan_mask")))
     rec.probe("large_offset_features", bool(case.get("large_offset")))
